@@ -5,6 +5,7 @@
 package mstore
 
 import (
+	"time"
 	"context"
 	"errors"
 	"fmt"
@@ -178,6 +179,10 @@ func (s *Store) tick(ctx context.Context, kind, sel string, series int) error {
 		_ = p.Labels // genuine nil dereference
 	case "panic-string":
 		panic("mstore: injected string panic at " + key)
+	case "slow":
+		// a slow storage call (never an oracle: it only widens the window in which
+		// something else can happen while this call is in flight)
+		time.Sleep(30 * time.Millisecond)
 	case "cancel":
 		if s.Cancel != nil {
 			s.Cancel()
